@@ -127,6 +127,10 @@ func checkValues(ctx string, src string, vals []cssTok) string {
 				case "prelude":
 					must = (isWordLike(a.tt) && a.tt != css.FunctionToken || a.data == ")") && (isWordLike(b.tt) || b.data == "(")
 				}
+				if must && !want[k].wsBefore {
+					// a comment alone: a separator is needed only where the two tokens would merge into one
+					must = isWordLike(a.tt) && a.tt != css.FunctionToken && a.tt != css.StringToken && a.tt != css.URLToken && isWordLike(b.tt) && b.tt != css.StringToken && b.tt != css.URLToken
+				}
 				if must {
 					return fmt.Sprintf("the whitespace between %q and %q in %q separates two tokens that would otherwise merge or change meaning, but Values() has none there", a.data, b.data, src)
 				}
@@ -206,7 +210,7 @@ var c08Customs = []string{" {a;b} [c] (d)", "", "1", " a  b\tc ", "{ x: y }", " 
 
 var c08Selectors = []string{".a /*c*/.b", ".a/*c*/ .b", "a /*c*/[b]", "a /*c*//*d*/b:hover", "li:nth-child(2n +1)", "li:nth-child( 2n + 1 )", ":nth-child(-n +3) b", "a:nth-of-type(+3n -2)", "a:nth-child(2n+1 of .b  .c)", "a", "a b", "a>b", "a > b", "a , b", "a,b", ".c", "a.c #d", "#d:hover", "a :first-child", "a[b=\"c\"]", "a[ b = \"c\" i ]", "a:not(b , .c) d", "a:not([href]) b", "* + *", "a::before", "a~b", "A B", "a\tb\n>\nc", "a /**/ b", ":is( [x] , .y ) z", "h1 , h2:where(.a .b) c", "a [b]", "a:not([b]) [c]"}
 
-var c08Preludes = []string{"(a;b) c", "x f(a;b)", "[a;b]", "screen /*c*/and (x)", "screen/*c*/ and (x)", "'a.css' /*c*/print", "", "screen", "screen and (min-width:100px)", "screen and ( min-width : 100px )", "a , b", "url(x) print", "(display:grid) and (not (a:b))", "x y"}
+var c08Preludes = []string{"a/**/b", "a/**/1px /**/(x)/**/and/**/y", "(a;b) c", "x f(a;b)", "[a;b]", "screen /*c*/and (x)", "screen/*c*/ and (x)", "'a.css' /*c*/print", "", "screen", "screen and (min-width:100px)", "screen and ( min-width : 100px )", "a , b", "url(x) print", "(display:grid) and (not (a:b))", "x y"}
 
 func declItem(d declSpec, term string) cItem {
 	return cItem{d.prop + ":" + d.val + term, []gUnit{{css.DeclarationGrammar, strings.ToLower(d.prop), "value", d.val}}}
@@ -610,7 +614,7 @@ func c08Work(c *engine.Ctx) {
 func init() {
 	register(&engine.Check{
 		ID: "C08", Level: "exploration",
-		Rule:        "well-formed stylesheets = every single and every ordered pair (every third pair in quick) of ~330 top-level items × {adjacent, space, comment between}: rulesets (24 selectors incl. combinators, attribute selectors, functional pseudo-classes, comments) × declaration lists (20 declarations incl. functions, nested parentheses, strings, urls, !important, IE hacks, progid filters; 7 custom-property values incl. braces and semicolons; ';' variants), nested rulesets and at-rules inside rulesets, every block at-rule kind of css/hash.go in three spellings + vendor prefixes × 14 preludes (among them semicolons inside brackets) × bodies, statement at-rules, unknown at-rules (token soup), top-level comments and CDO/CDC; inline declaration lists. Expected unit stream (type, lower-cased name) by construction; Values() without whitespace == the source's component tokens (reference tokenizer of C07), whitespace tokens single/non-adjacent/only where the source has whitespace and present where it separates compound selectors or word-like value tokens, absent next to a combinator or comma of a selector (nested rulesets as top-level ones); custom-property values exact. All byte strings ≤3-4 (4-5) atoms over the CSS alphabets and edit balls around the CSS seeds in both modes: shadow stack of Begin/End units, no unclosed Begin at the EOF report unless a parse error was reported, every reported token occurs in the input in source order",
+		Rule:        "well-formed stylesheets = every single and every ordered pair (every third pair in quick) of ~330 top-level items × {adjacent, space, comment between}: rulesets (24 selectors incl. combinators, attribute selectors, functional pseudo-classes, comments) × declaration lists (20 declarations incl. functions, nested parentheses, strings, urls, !important, IE hacks, progid filters; 7 custom-property values incl. braces and semicolons; ';' variants), nested rulesets and at-rules inside rulesets, every block at-rule kind of css/hash.go in three spellings + vendor prefixes × 16 preludes (among them semicolons inside brackets) × bodies, statement at-rules, unknown at-rules (token soup), top-level comments and CDO/CDC; inline declaration lists. Expected unit stream (type, lower-cased name) by construction; Values() without whitespace == the source's component tokens (reference tokenizer of C07), whitespace tokens single/non-adjacent/only where the source has whitespace and present where it separates compound selectors or word-like value tokens, absent next to a combinator or comma of a selector (nested rulesets as top-level ones); custom-property values exact. All byte strings ≤3-4 (4-5) atoms over the CSS alphabets and edit balls around the CSS seeds in both modes: shadow stack of Begin/End units, no unclosed Begin at the EOF report unless a parse error was reported, every reported token occurs in the input in source order",
 		Assumptions: []string{"'whitespace must be kept' is required only where it separates two compound selectors, two word-like value tokens, or a word-like token and a parenthesis in an at-rule prelude", "after a reported parse error only the conservation clause is checked"},
 		Setup:       c08Setup, Work: c08Work,
 	})
